@@ -74,6 +74,7 @@ class ItextGen:
         self.kw_dl = rng.choice(dl_pool) if rng.random() < 0.3 else None
         self.dl = self.st_dl or self.kw_dl or "default"
         self.counter = 0
+        self.p_blank = rng.choice([0.0, 0.0, 0.05, 0.15])
         self.lists = {}
         self.p_unsuffixed = rng.choice([0.0, 0.2, 0.5])
         self.p_col = rng.choice([0.15, 0.3, 0.5])
@@ -82,6 +83,10 @@ class ItextGen:
         self.osm_lists = {}
 
     def text(self, dyn=False):
+        if not dyn and self.rng.random() < self.p_blank:
+            # whitespace-only cell: reachable through dict / JSON input only (spreadsheet readers drop empty
+            # cells); after cleaning it is an empty-string translation, which still is a translation
+            return self.rng.choice([" ", "  "])
         s = self.rng.choice(TEXTS)
         if s != "-" and self.rng.random() < 0.7:
             # distinct marker texts: a value shown under the wrong language / id / form is noticed
